@@ -83,6 +83,7 @@ func (bm *Base) Decode(vector string) (*Base, error) {
 	return bm, nil
 }
 func (bm *Base) decodeOne(str string) error {
+	verifTrace("v3.base.decodeOne", bm, str)
 	m := strings.Split(str, ":")
 	if len(m) != 2 || len(m[0]) == 0 || len(m[1]) == 0 {
 		return errs.Wrap(cvsserr.ErrInvalidVector, errs.WithContext("metric", str))
